@@ -187,7 +187,7 @@ def line(cmd, kind, ws, desc_toks, *rest):
 def drivers(ctx, variant="plain"):
     os.makedirs(TMP, exist_ok=True)
     model_bin = "ulimit -s unlimited 2>/dev/null || ulimit -s 1000000; " + pv.build_ocaml("io")
-    impl = pv.build_harness(variant, "io_drv", "-fno-access-control")
+    impl = pv.build_harness(variant, "io_drv", "-fno-access-control" + (" -DPV_LIMIT_NEW" if variant == "asan" else ""))
     return impl, model_bin
 
 
@@ -204,7 +204,8 @@ def impl_env(variant="plain", damage=False, dev=None, as_mb=2048):
     if variant == "asan":
         # RLIMIT_AS is incompatible with the shadow memory; the allocator limit turns a
         # corrupted length into std::bad_alloc just as the address-space limit does
-        env["ASAN_OPTIONS"] = "detect_leaks=0:allocator_may_return_null=1:max_allocation_size_mb=2048:soft_rss_limit_mb=6000"
+        env["ASAN_OPTIONS"] = "detect_leaks=0:allocator_may_return_null=1:max_allocation_size_mb=4096"
+        env["PV_NEW_LIMIT_MB"] = str(as_mb)
         env["UBSAN_OPTIONS"] = "print_stacktrace=1"
     return env
 
